@@ -379,6 +379,30 @@ func vfHalRun(run *verifrt.Run, c vfHalCase) {
 	}
 }
 
+type vfCountSink struct{ n int }
+
+func (c *vfCountSink) Write(p []byte) (int, error) { c.n += len(p); return len(p), nil }
+
+var vfCapacity int
+
+// vfEarlyCapacity measures how many bytes the early buffer retains (the property speaks of "the early buffer's
+// capacity", whatever it is): overfill it byte by byte with no sink, then count what the first sink receives.
+func vfEarlyCapacity() int {
+	if vfCapacity == 0 {
+		kfmt.SetOutputSink(nil)
+		io.Copy(ioutil.Discard, kfmt.GetOutputSink().(io.Reader))
+		for i := 0; i < 1<<17; i++ {
+			kfmt.Printf("x")
+		}
+		var c vfCountSink
+		kfmt.SetOutputSink(&c)
+		kfmt.SetOutputSink(nil)
+		io.Copy(ioutil.Discard, kfmt.GetOutputSink().(io.Reader))
+		vfCapacity = c.n
+	}
+	return vfCapacity
+}
+
 // vfTeeVT is the shipped terminal with a tap on its input.
 type vfTeeVT struct {
 	*tty.VT
@@ -418,7 +442,7 @@ func vfCheckStream(got, pre []byte, halTokens []string, insts []*vfInst) (string
 	if !bytes.HasSuffix(pre, early) {
 		return "early-log", fmt.Sprintf("the early log on the terminal is not a suffix of what was logged before detection: got %d bytes ending %q", len(early), vfTail(early))
 	}
-	const capacity = 2047
+	capacity := vfEarlyCapacity()
 	if len(pre)+len(hal) <= capacity && len(early) != len(pre) {
 		return "early-log-lost", fmt.Sprintf("%d of %d early bytes reached the terminal although the early buffer was not full", len(early), len(pre))
 	}
@@ -479,11 +503,12 @@ func TestVerifC16Hal(t *testing.T) {
 		return
 	}
 	orders := []int{-128, 0, 127}
-	preLogs := []int{0, 10, 3000}
+	capacity := vfEarlyCapacity() // measured, not assumed (2047 on the pinned tree)
+	preLogs := []int{0, 10, capacity + capacity/2}
 	maxN := 3
 	if run.Thorough() {
 		orders = []int{-128, -127, 0, 127}
-		preLogs = []int{0, 10, 2040, 3000}
+		preLogs = []int{0, 10, capacity - 7, capacity + capacity/2}
 	}
 	// per-driver options: (kind, outcome)
 	type opt struct{ kind, outcome int }
